@@ -368,3 +368,34 @@ def q4(facts, tier):
                                                                for p in x["parts"])) >= 2
         yield ob(P, "Q4", f"bound-{bound}", "pass" if ok else "violation", where(f),
                  f"{bound} bound direction rules (both polarities) " + ("present" if ok else "missing"))
+
+
+# ---------------------------------------------------------------------------------------------
+# Q4b: the comparison of NESTED interface definitions (trait-object, closure and future arguments / return values)
+
+@rule("Q4b", ["C15", "C10"], floor=3, doc="diff_abi_def (reached from diff_schema for Trait / FnClosure / Future schemas): for every method that both "
+      "nested definitions have, the argument count, every argument schema AND the return schema are compared - a closure argument whose "
+      "return type changed, or an async method whose output type changed, is otherwise accepted by the ledger and at connection time")
+def q4b(facts, tier):
+    f, tab, ex = extract(facts, "savefile::diff_abi_def", "some", operand_params=[0, 1], recursive=("savefile::diff_schema",))
+    if f is None:
+        yield ob(["C15", "C10"], "Q4b", "anchor", "violation", "", "savefile::diff_abi_def not found")
+        return
+    P = ["C15", "C10"]
+    arm = "<top>"
+    fs = tab.arms.get(arm, [])
+    path = ("methods", "*", "info", "arguments", "len")
+    ok = tab.neq(arm, path)
+    yield ob(P, "Q4b", "argument-count", "pass" if ok else "violation", where(f),
+             f"{'.'.join(path)} of both nested definitions " + ("must agree" if ok else "is NOT compared"))
+    for name, path in (("return-schema", ("methods", "*", "info", "return_value")),
+                       ("argument-schema", ("methods", "*", "info", "arguments", "*", "schema"))):
+        r = None
+        for x in fs:
+            if x["kind"] == "rec" and x["fn"] == "savefile::diff_schema" and len(x["args"]) >= 2 \
+                    and rel(x["args"][0]) == path and rel(x["args"][1]) == path:
+                r = x
+        yield ob(P, "Q4b", name, "pass" if r is not None else "violation", where(f),
+                 f"nested interface: diff_schema of {'.'.join(path)} " + ("is evaluated" if r is not None else
+                 "is NOT evaluated: a changed " + ("return type of a closure argument / output type of an async method" if name == "return-schema"
+                                                   else "argument type of a nested interface") + " is not reported"))
